@@ -288,8 +288,10 @@ def _long_streams(nex):
     def fn(ctx, shard, nshards):
         def body(case):
             case = dict(case, stop={"kind": "none"})
-            if case["fail_at"] is not None:
+            if case["fail_at"] is not None and not 0 <= case["fail_at"] < case["n"]:
                 case["fail_at"] = None
+            if case["fail_at"] is not None and case["source"] == "list":
+                case["fail_at"] = None  # a plain list has no failing source
             vs, n, nt = c06.eval_backpressure(case, prop="C04")
             ctx.count(n)
             ctx.cls("long-stream:" + case["source"] + (":early" if case["early"] else ":lazy"))
